@@ -257,7 +257,13 @@ def fs_snapshot(d):
     out = {}
     for name in sorted(os.listdir(d)):
         p = os.path.join(d, name)
-        st = os.stat(p)
+        st = os.lstat(p)
+        if os.path.isdir(p) and not os.path.islink(p):
+            out[name] = (st.st_ino, 0, 0, "directory:" + ",".join(sorted(os.listdir(p))))
+            continue
+        if os.path.islink(p):
+            out[name] = (st.st_ino, st.st_mtime_ns, st.st_size, "link:" + os.readlink(p))
+            continue
         out[name] = (st.st_ino, st.st_mtime_ns, st.st_size, hashlib.sha256(open(p, "rb").read()).hexdigest())
     return out
 
@@ -471,6 +477,37 @@ def run_case(cid, rng, workdir):
             if sorted(after) != sorted({fname, "other.txt"} | ({"#%s.1#" % fname} if prog != "gen_seq" else set())):
                 violation(res, "%s:stray-files-after-success" % prog, "directory after success: %s" % sorted(after), w0)
             if prog != "gen_seq":
+                # an output path inside a directory that does not exist: the run cannot put its file there, so it fails;
+                # it must not create the directory, and must not leave anything behind in the working directory
+                d3 = fresh_outdir(workdir, fname, "nodir")
+                cwd3 = os.path.join(workdir, "cwd_nodir")
+                os.makedirs(cwd3, exist_ok=True)
+                before3, beforecwd = fs_snapshot(d3), sorted(os.listdir(cwd3))
+                here3 = os.getcwd()
+                os.chdir(cwd3)
+                reset_state(os.path.join(d3, "missing_dir", fname))
+                seeded()
+                raised3 = None
+                try:
+                    runner(Path(d3) / "missing_dir" / fname)
+                except Exception as e3:          # noqa
+                    if type(e3).__name__ == "CaseTimeout":
+                        os.chdir(here3)
+                        raise
+                    raised3 = e3
+                finally:
+                    os.chdir(here3)
+                try:
+                    DeferredFileWriter().close()
+                except Exception:
+                    pass
+                DeferredFileWriter().open_files.clear()
+                bump(res, "runs_into_a_missing_directory")
+                after3, aftercwd = fs_snapshot(d3), sorted(os.listdir(cwd3))
+                if raised3 is not None and (after3 != before3 or aftercwd != beforecwd):
+                    violation(res, "%s:failed-run-leaves-files-behind" % prog, "output path in a directory that does not exist: the run "
+                              "failed (%s) and left %s in the output directory, %s in the working directory" %
+                              (type(raised3).__name__, sorted(set(after3) ^ set(before3)), sorted(set(aftercwd) ^ set(beforecwd))), w0)
                 # the file at the output path is a symbolic link to a file kept elsewhere: that file is not the output and
                 # is left alone; what was at the path (the link) is backed up next to the output
                 d2 = fresh_outdir(workdir, fname, "link")
@@ -506,13 +543,19 @@ def run_case(cid, rng, workdir):
             if noprev:
                 os.remove(os.path.join(d, fname))          # no file at the output path yet
                 bump(res, "faults_without_previous_file")
+            # every seventh fault before the flush runs with an output path inside a directory that does not exist yet:
+            # a run that fails must not have created it
+            nodir = (points.index(pt) % 7 == 3) and phase_seen == "before" and prog != "gen_seq"
+            target = (Path(d) / "new_dir" / fname) if nodir else (Path(d) / fname)
+            if nodir:
+                bump(res, "faults_with_output_in_a_missing_directory")
             before = fs_snapshot(d)
-            reset_state(os.path.join(d, fname))
+            reset_state(str(target))
             STATE["armed"] = (kind, name, line, occ)
             seeded()
             raised = None
             try:
-                runner(Path(d) / fname)
+                runner(target)
             except InjectedFault as e:
                 raised = e
             except Exception as e:      # noqa
